@@ -514,6 +514,17 @@ def run(prog: Program, res: Result) -> None:  # noqa: PLR0912, PLR0915
                     h = prog.find_method(c, n.func.attr)
                     if h is not None:
                         work.append(h)
+                # a module-level printer handed `self`: what it reads on that parameter is printed
+                if isinstance(n, ast.Call) and isinstance(n.func, ast.Name) and any(isinstance(a, ast.Name) and a.id == "self" for a in n.args):
+                    r = prog.resolve(g.module, n.func.id)
+                    if hasattr(r, "node") and hasattr(r, "params"):
+                        idx = next(i for i, a in enumerate(n.args) if isinstance(a, ast.Name) and a.id == "self")
+                        ps = r.params()
+                        if idx < len(ps):
+                            pn = ps[idx]
+                            for x in ast.walk(r.node):
+                                if isinstance(x, ast.Attribute) and isinstance(x.value, ast.Name) and x.value.id == pn:
+                                    printed.add(x.attr)
         beh: dict[str, list[str]] = {}
         for k in prog.mro(c):
             for m_ in k.methods.values():
@@ -569,6 +580,10 @@ def run(prog: Program, res: Result) -> None:  # noqa: PLR0912, PLR0915
     # ------------------------------------------------------------------ R13 names that may be quoted strings
     res.rule("C12.R13", "a field filled from parse_string_or_identifier() (block, macro, call, cycle, increment/decrement names, include/render aliases) is never interpolated bare by the node's __str__: it goes through a quoting helper")
     _identifier_printing_rule(prog, res)
+
+    # ------------------------------------------------------------------ R14 array literals and template strings
+    res.rule("C12.R14", "ArrayLiteral.__str__ keeps the comma that makes a one-item array an array, and TemplateString.__str__ escapes quotes, backslashes and `${` in its literal parts only (symbolic evaluation of both printers, read back with a model of the string scanner)")
+    _literal_shapes_rule(prog, res)
 
 
 def _grouping_rule(prog: Program, res: Result) -> None:  # noqa: PLR0912, PLR0915
@@ -737,26 +752,37 @@ def _grouping_rule(prog: Program, res: Result) -> None:  # noqa: PLR0912, PLR091
     res.floor("C12.R10", "operator trees enumerated", len(shapes), 1000)
     bad: dict[str, list[str]] = {}
     n_ok = 0
+    lam = prog.resolve(ex, "LambdaExpression")
+    roots = [("a condition", lambda tree: Sym(be, {"expression": tree}), ""), ("its own __str__", lambda tree: tree, "")]
+    if isinstance(lam, ClassInfo):
+        roots.append(("an arrow function body", lambda tree: Sym(lam, {"params": ["i"], "expression": tree}), "i => "))
+    res.stats["C12.R10.print_contexts"] = [r[0] for r in roots]
     for t in shapes:
-        E.steps = 0
-        try:
-            txt = E.to_str(Sym(be, {"expression": mk(t)}))
-        except Unsupported as err:
-            res.fail("C12.R10", file=rel, line=1, qualname="BooleanExpression.__str__", construct=f"printer not evaluable: {err}", message=f"grouping agreement could not be evaluated: {err}", what="printer is in the modelled subset")
-            return
-        try:
-            back = model.parse(txt)
-            same = canon(back) == canon(t)
-            why = f"`{txt}` re-parses as {back}"
-        except ValueError as err:
-            same = False
-            why = f"`{txt}` does not re-parse ({err})"
-        if same:
-            n_ok += 1
-            continue
-        # attribute the loss to the innermost printer whose operand lost its grouping: the top class of the tree
-        owner = t[0]
-        bad.setdefault(owner, []).append(f"{t} -> {why}")
+        for ctx_name, wrap, prefix in roots:
+            E.steps = 0
+            try:
+                txt = E.to_str(wrap(mk(t)))
+            except Unsupported as err:
+                res.fail("C12.R10", file=rel, line=1, qualname="BooleanExpression.__str__", construct=f"printer not evaluable ({ctx_name}): {err}", message=f"grouping agreement could not be evaluated: {err}", what="printer is in the modelled subset")
+                return
+            if prefix:
+                if not txt.startswith(prefix):
+                    res.fail("C12.R10", file=rel, line=1, qualname="LambdaExpression.__str__", construct=f"arrow function printed as {txt!r}", message=f"an arrow function with parameter i is printed `{txt}`", what="arrow function prefix")
+                    return
+                txt = txt[len(prefix):]
+            try:
+                back = model.parse(txt)
+                same = canon(back) == canon(t)
+                why = f"as {ctx_name} `{txt}` re-parses as {back}"
+            except ValueError as err:
+                same = False
+                why = f"as {ctx_name} `{txt}` does not re-parse ({err})"
+            if same:
+                n_ok += 1
+                continue
+            # attribute the loss to the top class of the tree
+            owner = t[0]
+            bad.setdefault(owner, []).append(f"{t} -> {why}")
     res.stats["C12.R10.trees"] = len(shapes)
     res.stats["C12.R10.trees_agreeing"] = n_ok
     for cname in names:
@@ -1062,3 +1088,98 @@ def _identifier_printing_rule(prog: Program, res: Result) -> None:  # noqa: PLR0
                     else:
                         res.ok("C12.R13", site, what, "every use is an argument of a helper call or a presence test")
     res.floor("C12.R13", "fields holding string-or-identifier names", n_fields, 8)
+
+
+def _literal_shapes_rule(prog: Program, res: Result) -> None:
+    """C12.R14: array literals and template strings print in a form that reads back as the same literal."""
+    from sa.symprint import Sym
+    from sa.symprint import SymEval
+    from sa.symprint import Unsupported
+
+    ex = prog.mod("liquid2/builtin/expressions.py")
+    E = SymEval(prog)
+    arr = prog.resolve(ex, "ArrayLiteral")
+    ts = prog.resolve(ex, "TemplateString")
+    sl = prog.resolve(ex, "StringLiteral")
+    if not all(isinstance(x, ClassInfo) for x in (arr, ts, sl)):
+        raise AnalysisError("ArrayLiteral / TemplateString / StringLiteral vanished")
+    a, b = Sym(None, name="a"), Sym(None, name="b")
+    # ---- arrays: the reader makes an array only when it sees a comma after the first item
+    for items, want in (([a], 1), ([a, b], 2)):
+        E.steps = 0
+        site = f"{ex.relpath}:{arr.methods['__str__'].node.lineno} ArrayLiteral.__str__"
+        what = f"an array literal of {want} item(s) is printed with the comma(s) that make it an array"
+        try:
+            txt = E.to_str(Sym(arr, {"items": items}))
+        except Unsupported as err:
+            res.fail("C12.R14", file=ex.relpath, line=arr.node.lineno, qualname="ArrayLiteral.__str__", construct=f"not evaluable: {err}", message=f"ArrayLiteral.__str__ could not be evaluated symbolically: {err}", what=what)
+            continue
+        parts = [p_.strip() for p_ in txt.split(",")]
+        ok = "," in txt and [p_ for p_ in parts if p_] == [i.name for i in items]
+        if ok:
+            res.ok("C12.R14", site, what, f"`{txt}`")
+        else:
+            res.fail("C12.R14", file=ex.relpath, line=arr.methods["__str__"].node.lineno, qualname="ArrayLiteral.__str__", construct=f"array of {want} printed as `{txt}`", message=f"an array literal with {want} item(s) is printed `{txt}`: without a comma it is read back as the bare item (a one-item array becomes a scalar, so `| size`, `for` and `first` change meaning)", what=what)
+    # ---- template strings
+    cases = [
+        ("plain text", [("lit", "hello "), ("expr", "x")]),
+        ("both quote kinds and a literal ${ in the text", [("lit", "say \"hi\" it's ${not} "), ("expr", "x"), ("lit", " \\ end")]),
+        ("quotes inside the interpolated expression", [("lit", "it's "), ("expr", "f('q',\"r\")")]),
+    ]
+    for label, parts_ in cases:
+        tmpl = [Sym(sl, {"value": v}) if k == "lit" else Sym(None, name=v) for k, v in parts_]
+        E.steps = 0
+        sm = ts.methods["__str__"]
+        site = f"{ex.relpath}:{sm.node.lineno} TemplateString.__str__"
+        what = f"a template string with {label} reads back as the same parts"
+        try:
+            txt = E.to_str(Sym(ts, {"template": tmpl}))
+        except Unsupported as err:
+            res.fail("C12.R14", file=ex.relpath, line=sm.node.lineno, qualname="TemplateString.__str__", construct=f"not evaluable: {err}", message=f"TemplateString.__str__ could not be evaluated symbolically: {err}", what=what)
+            continue
+        back = _scan_template_string(txt)
+        want_parts = []
+        for k, v in parts_:
+            if k == "lit" and want_parts and want_parts[-1][0] == "lit":
+                want_parts[-1] = ("lit", want_parts[-1][1] + v)
+            else:
+                want_parts.append((k, v))
+        if back == want_parts:
+            res.ok("C12.R14", site, what, f"`{txt}`")
+        else:
+            res.fail("C12.R14", file=ex.relpath, line=sm.node.lineno, qualname="TemplateString.__str__", construct=f"template string ({label}) printed as `{txt[:60]}`", message=f"a template string with {label} is printed `{txt}`, which reads back as {back} instead of {want_parts}", what=what)
+
+
+def _scan_template_string(txt: str):  # noqa: ANN202
+    """Model of the lexer's template-string scanner: outer quotes, backslash escapes in literal text, ${ … } verbatim."""
+    if len(txt) < 2 or txt[0] not in "'\"" or txt[-1] != txt[0]:
+        return f"not a quoted string: {txt!r}"
+    q, body = txt[0], txt[1:-1]
+    out: list[tuple[str, str]] = []
+    lit = ""
+    i = 0
+    esc = {"n": "\n", "r": "\r", "t": "\t", "\\": "\\", "'": "'", '"': '"', "$": "$", "/": "/", "b": "\x08", "f": "\x0c"}
+    while i < len(body):
+        ch = body[i]
+        if ch == "\\":
+            if i + 1 >= len(body) or body[i + 1] not in esc or (body[i + 1] in "'\"" and body[i + 1] != q):
+                return f"invalid escape at {i} in {txt!r}"
+            lit += esc[body[i + 1]]
+            i += 2
+        elif ch == q:
+            return f"unescaped quote at {i} in {txt!r}"
+        elif body.startswith("${", i):
+            j = body.find("}", i)
+            if j < 0:
+                return "unterminated interpolation"
+            if lit:
+                out.append(("lit", lit))
+                lit = ""
+            out.append(("expr", body[i + 2 : j].strip()))
+            i = j + 1
+        else:
+            lit += ch
+            i += 1
+    if lit:
+        out.append(("lit", lit))
+    return out
